@@ -40,7 +40,7 @@ func runC08(tier, replay string) {
 	r.Assume("part/registry state is read from pithos' SQLite tables through a read-only connection at quiescent points")
 	ctx := context.Background()
 	stacks := []string{"fs", "sql", "named", "outbox>fs"}
-	rounds := r.N(18, 100)
+	rounds := r.N(18, 45)
 	if r.Thorough() {
 		stacks = append(stacks, "zstd>fs", "ec21", "cache>fs")
 	}
